@@ -189,6 +189,12 @@ package wire
 //@   requires c.transport != nil && c.ctx != nil
 //@   assert call WithTimeout: arg1 == c.pingTimeout
 //@   assert call sendRequest: typeis(arg2, *message.Ping) && unbox(arg2, *message.Ping) != nil
+// ... and every keepalive tick does send one: no early return that skips the ping because something else
+// (stream traffic, a recent pong) was seen - detection of a silent broker is bounded by interval + timeout
+// from the tick, not from the last traffic
+//@   ghostvar pinged bool = false
+//@   after call sendRequest: pinged = true
+//@   ensures[C15] pinged
 
 // the connect request announces the configured interval and timeout (server defaults only for zero),
 // and the client pings with the configured ones (client defaults only for zero)
